@@ -6,7 +6,7 @@ From Coq Require Import ZArith List Bool PArith FMapPositive Lia.
 From XV Require Import C01.Model C01.Spec C01.ProofsBase C01.ProofsWfb C01.ProofsFrame C01.ProofsUses
   C01.ProofsOperands C01.ProofsRauw C01.ProofsSetOperands C01.ProofsSetSuccessors C01.ProofsDll C01.ProofsOps
   C01.ProofsBlocks C01.ProofsOpRegions C01.ProofsMove C01.ProofsOpLists C01.ProofsBlockLists C01.ProofsArgs
-  C01.ProofsCreate C01.ProofsInv.
+  C01.ProofsCreate C01.ProofsInv C01.ProofsErase C01.ProofsReplaceType.
 Import ListNotations.
 Local Open Scope Z_scope.
 
@@ -20,6 +20,9 @@ Proof. apply wf_b_sound. vm_compute. reflexivity. Qed.
 Definition proved_call (c : call) : bool :=
   match c with
   | COpCreate _ _ _ _ | CBlockNew _ _ | CRegionNew _ | CCreateBlock _ _ _ => true
+  (* erase of an operation: proved for operations WITHOUT regions (see args_live) *)
+  | COpErase _ _ | CEraseOp _ _ _ | CRwEraseOp _ _ _ => true
+  | CRwReplaceValueWithNewType _ _ => true
   | CSetOperands _ _ | CSetSuccessors _ _ | COperandSetItem _ _ _ | CSuccessorSetItem _ _ _
   | CAddRegion _ _ | CDetachRegion _ _ | CDetachRegionIdx _ _
   | CReplaceAllUsesWith _ _ | CReplaceUsesWithIf _ _ _ | CValueErase _ _
@@ -38,10 +41,18 @@ Definition blk_in_live_region (s : state) (t : bid) : Prop :=
   exists tx region, PM.find t (s_blocks s) = Some tx /\ b_erased tx = false /\
                     b_parent tx = Some region /\ reg_live s region.
 
+(* a live operation without regions *)
+Definition op_live_noregions (s : state) (o : oid) : Prop :=
+  exists x, PM.find o (s_ops s) = Some x /\ o_erased x = false /\ o_regions x = [] /\
+            (forall b, o_parent x = Some b -> blk_live s b).
+
 (* "objects erased by a successful erase call are not used again", per constructor *)
 Definition args_live (s : state) (c : call) : Prop :=
   match c with
   | CBlockNew ops _ => forall o, In o ops -> op_live s o
+  | COpErase o _ | CRwEraseOp _ o _ => op_live_noregions s o
+  | CRwReplaceValueWithNewType _ v => val_live s v
+  | CEraseOp b o _ => blk_live s b /\ op_live_noregions s o
   | CRegionNew blocks => forall b, In b blocks -> blk_live s b
   | CCreateBlock r ib _ => reg_live s r /\ (forall t, ib = Some t -> blk_live s t)
   | CSetOperands o _ | CSetSuccessors o _ | COperandSetItem o _ _ | CSuccessorSetItem o _ _
@@ -175,6 +186,36 @@ Proof. intros blocks. w_lift. split; [exact (proj1 (region_new_inv _ _ _ _ W PO 
 Lemma W_COpCreate : forall operands nres succs regions, step_ok (COpCreate operands nres succs regions).
 Proof. intros operands nres succs regions. w_lift. split; [exact (proj1 (op_create_inv _ _ _ _ _ _ _ W PO E))|exact (proj2 (op_create_inv _ _ _ _ _ _ _ W PO E))]. Qed.
 
+Lemma W_COpErase : forall o safe, step_ok (COpErase o safe).
+Proof.
+  intros o safe. w_unit. destruct AL as (x & F & Ex & Rx & BL). split.
+  - exact (op_erase_noregions_WF _ _ _ _ _ _ W F Ex Rx E).
+  - p_nobody op_erase_par.
+Qed.
+Lemma W_CEraseOp : forall b o safe, step_ok (CEraseOp b o safe).
+Proof.
+  intros b o safe. w_unit. destruct AL as (A1 & x & F & Ex & Rx & BL). split.
+  - exact (erase_op_noregions_WF _ _ _ _ _ _ _ W A1 F Ex Rx E).
+  - p_nobody erase_op_par.
+Qed.
+Lemma W_CRwEraseOp : forall pr o safe, step_ok (CRwEraseOp pr o safe).
+Proof.
+  intros pr o safe. w_unit. destruct AL as (x & F & Ex & Rx & BL). split.
+  - exact (rw_erase_op_noregions_WF _ _ _ _ _ _ W F Ex Rx BL E).
+  - p_nobody rw_erase_op_par.
+Qed.
+
+Lemma rvnt_par : forall PB PR PO v, preserves (par_rel PB PR PO) (rw_replace_value_with_new_type v).
+Proof.
+  intros. unfold rw_replace_value_with_new_type.
+  apply (pres_bind _ (fr_par PB PR PO)); [apply (pres_getV _ (fr_par PB PR PO))|intro vr].
+  destruct (v_kind vr); pres (fr_par PB PR PO).
+Qed.
+Lemma W_CRwReplaceValueWithNewType : forall pr v, step_ok (CRwReplaceValueWithNewType pr v).
+Proof.
+  intros pr v. w_lift. split; [exact (rw_replace_value_with_new_type_WF _ _ _ _ W AL E)|p_nobody rvnt_par].
+Qed.
+
 Lemma W_COpDetach : forall o, step_ok (COpDetach o).
 Proof.
   intros o. w_unit. split; [|p_nobody op_detach_par]. destruct AL as [OL BL]. unfold op_detach in E.
@@ -260,7 +301,7 @@ Proof.
 Qed.
 
 Create HintDb wstep discriminated.
-#[export] Hint Resolve W_CSetOperands W_CSetSuccessors W_COperandSetItem W_CSuccessorSetItem W_CAddRegion W_CDetachRegion W_CDetachRegionIdx W_CReplaceAllUsesWith W_CReplaceUsesWithIf W_CValueErase W_CPrReplaceAllUsesWith W_CPrReplaceUsesWithIf W_CInsertArg W_CPrInsertBlockArgument W_CEraseArg W_CInsertOpAfter W_CInsertOpBefore W_CAddOp W_CDetachOp W_CAddOps W_CInsertOpsBefore W_CInsertOpsAfter W_CRwInsertOp W_CAddBlock W_CInsertBlockBefore W_CInsertBlockAfter W_CInsertBlock W_CRwInsertBlock W_CDetachBlock W_CDetachBlockIdx W_CMoveBlocks W_CBlockNew W_CRegionNew W_COpCreate W_COpDetach W_CPrEraseBlockArgument W_CMoveBlocksBefore W_CRwInlineRegion W_CRwMoveRegionContents W_CCreateBlock : wstep.
+#[export] Hint Resolve W_CSetOperands W_CSetSuccessors W_COperandSetItem W_CSuccessorSetItem W_CAddRegion W_CDetachRegion W_CDetachRegionIdx W_CReplaceAllUsesWith W_CReplaceUsesWithIf W_CValueErase W_CPrReplaceAllUsesWith W_CPrReplaceUsesWithIf W_CInsertArg W_CPrInsertBlockArgument W_CEraseArg W_CInsertOpAfter W_CInsertOpBefore W_CAddOp W_CDetachOp W_CAddOps W_CInsertOpsBefore W_CInsertOpsAfter W_CRwInsertOp W_CAddBlock W_CInsertBlockBefore W_CInsertBlockAfter W_CInsertBlock W_CRwInsertBlock W_CDetachBlock W_CDetachBlockIdx W_CMoveBlocks W_CBlockNew W_CRegionNew W_COpCreate W_COpErase W_CEraseOp W_CRwEraseOp W_CRwReplaceValueWithNewType W_COpDetach W_CPrEraseBlockArgument W_CMoveBlocksBefore W_CRwInlineRegion W_CRwMoveRegionContents W_CCreateBlock : wstep.
 
 Definition Inv (s : state) : Prop := WF s /\ parents_ok s.
 
